@@ -1708,7 +1708,8 @@ static void upipe_h265f_handle_global_annexb(struct upipe *upipe,
                                              const uint8_t *p, size_t size)
 {
     struct upipe_h265f *upipe_h265f = upipe_h265f_from_upipe(upipe);
-    if (upipe_h265f->encaps_input != UREF_H26X_ENCAPS_ANNEXB) {
+    if (upipe_h265f->encaps_input != UREF_H26X_ENCAPS_ANNEXB &&
+        upipe_h265f->encaps_input != UREF_H26X_ENCAPS_NALU) {
         upipe_warn_va(upipe,
                       "fixing up input encapsulation to annex B (from %d)",
                       upipe_h265f->encaps_input);
